@@ -393,7 +393,7 @@ def validate(ctx: Ctx, traces: list, what: str):
 
 # ------------------------------------------------------------------------- names
 TOKENS = {"h1": sha("h1"), "h2": sha("h2"), "h3": sha("h3"), "u7": uuid.UUID(int=int(sha("u7")[:32], 16)).hex,
-          "headnode": "headnode", "array": "array", "": ""}
+          "u8": uuid.UUID(int=int(sha("u8")[:32], 16)).hex, "headnode": "headnode", "array": "array", "": ""}
 
 
 def render_seg(seg: str, words: dict) -> str:
@@ -506,7 +506,7 @@ class ReuniteLab:
                                               "arrayProperties": {"index": 9}})
             if r["hashfile"]:
                 # the array's scratch files as redun wrote them when it created the array
-                parent = TOKENS["u7"]
+                parent = TOKENS[r["name"][-2]]
                 jobs = []
                 for e in r["made"]:
                     job = self.lab.Job(self.lab.tasks[0], self.lab.tasks[0]("ok", e))
@@ -622,11 +622,13 @@ def run(ctx: Ctx) -> None:
     lab = Lab(ctx)
 
     # ---- 1. model checking + enumeration: one exhaustive run (histories hidden by the VIEW) -------
-    g = expect_clean(run_tlc("seq/RemoteJob_Gen.tla", gen_cfg(3, ctx.pick(2, 3), ("proto", "name", "reunite"), 2),
+    g = expect_clean(run_tlc("seq/RemoteJob_Gen.tla",
+                             gen_cfg(3, ctx.pick(2, 3), ("proto", "name", "reunite"), ctx.pick(1, 2)),
                              ctx.scratch, workers=ctx.pick(8, "auto"), env=JVM_LONG, timeout=2400),
                      "RemoteJob_Gen (protocol, names, reunite)")
     ctx.add_tlc(g)
-    ctx.note("model_config", "groups of <= 3 jobs, 2 containers per job, prefixes of <= %d segments over "
+    ctx.note("model_config", f"groups of <= 3 jobs, {ctx.pick(1, 2)} container(s) per job exhaustively (2 in the "
+             "simulated behaviours), prefixes of <= %d segments over "
              "{'', p, q, array}, <= 2 in-flight remote jobs" % ctx.pick(2, 3))
     pcases, ncases, rcases = g.recs("CASE"), g.recs("NAME"), g.recs("REUNITE")
     ctx.require(len(pcases) > 500 and len(ncases) > 100 and len(rcases) > 1000,
